@@ -57,7 +57,9 @@ P = dict(
                 "patterns for the exact/classification/integer-returning functions and 2^28 for the approximate ones (thorough); doubles on "
                 "every one of the 2x2048 sign/exponent blocks x boundary mantissas + seeded random; two/three-argument functions on a "
                 "~560^2 boundary grid (x 21 third arguments) + seeded random pairs; complex functions on a moderate-magnitude grid, a "
-                "special-value grid and seeded random; an ASan+UBSan stratum (float-cast-overflow, shifts) over the boundary plans with a "
+                "special-value grid, an extreme-magnitude grid of finite parts whose squares/ratios overflow or underflow (incl. denormals, "
+                "mixed tiny/huge/zero parts), a trig-large grid (large cosh argument x parts at odd multiples of pi/2) and seeded random "
+                "(ordinary and extreme); an ASan+UBSan stratum (float-cast-overflow, shifts) over the boundary plans with a "
                 "breadcrumb before every call. Exact set: bit-identical (both-NaN relaxation, sign-bit functions also on the NaN sign); "
                 "approximate set: NaN/inf/signed-zero class equal and ulp distance within the committed table harness/C16_bounds.json. "
                 "Held means no divergence beyond the listed open findings on the executions counted in the evidence; it is not a proof "
